@@ -150,7 +150,11 @@ Seqs3 == {<<a, [b EXCEPT !.op = op1], [c EXCEPT !.op = op2]>> :
 DatesOnly == {W("normal", <<>>, <<DRange(B0(Dt(-1, 4, 1)), B0(Ea(-1)))>>, <<>>, <<>>, <<>>, "", ""),
               W("normal", <<>>, <<MoR(1, 1, -1)>>, <<>>, <<>>, <<>>, "", ""),
               W("normal", <<Y(2020, 2022, 1, FALSE)>>, <<>>, <<>>, <<>>, <<>>, "", ""),
-              W("normal", <<>>, <<>>, <<Wk(1, 10, 1)>>, <<>>, <<>>, "", "")}
+              W("normal", <<>>, <<>>, <<Wk(1, 10, 1)>>, <<>>, <<>>, "", ""),
+              \* the same with the whole day written out: the printer drops `00:00-24:00`, the parser must still see two rules
+              W("normal", <<>>, <<DRange(B0(Dt(-1, 4, 1)), B0(Ea(-1)))>>, <<>>, <<>>, <<Sp(Fx(0), Fx(1440))>>, "", ""),
+              W("normal", <<>>, <<MoR(1, 1, -1)>>, <<>>, <<>>, <<Sp(Fx(0), Fx(1440))>>, "", ""),
+              W("normal", <<>>, <<DSingle(B0(Dt(-1, 12, 25)))>>, <<>>, <<>>, <<Sp(Fx(0), Fx(1440))>>, "", "")}
 StartsWithDate == {W("additional", <<>>, <<DSingle(B0(Ea(-1)))>>, <<>>, <<>>, T1, "", ""),
                    W("additional", <<>>, <<DSingle(Bd(Ea(-1), 0, 0, 1))>>, <<>>, <<>>, <<>>, "", ""),
                    W("additional", <<>>, <<DSingle(B0(Ea(2025)))>>, <<>>, <<>>, <<>>, "unknown", ""),
